@@ -157,7 +157,23 @@ pub fn run(ctx: &mut Ctx) {
                         let d = |k: u64| ((idx / 10u64.pow(k as u32)) % 10) as u32 + 1;
                         return Some(F { sw: d(0), sh: d(1), dw: d(2), dh: d(3), cx: centering(&mut rng), cy: centering(&mut rng) });
                     }
-                    Some(F { sw: s(&mut rng), sh: s(&mut rng), dw: s(&mut rng), dh: s(&mut rng), cx: centering(&mut rng), cy: centering(&mut rng) })
+                    let mut f = F { sw: s(&mut rng), sh: s(&mut rng), dw: s(&mut rng), dh: s(&mut rng), cx: centering(&mut rng), cy: centering(&mut rng) };
+                    if idx % 3 == 0 {
+                        // pure crops: the destination shares one side with the source and is smaller on the other; centerings k/100
+                        // (margin x centering lands a hair below or on whole numbers)
+                        f.sw = rng.range(2, 160) as u32;
+                        f.sh = rng.range(2, 160) as u32;
+                        if rng.chance(1, 2) {
+                            f.dh = f.sh;
+                            f.dw = rng.range(1, f.sw as u64) as u32;
+                        } else {
+                            f.dw = f.sw;
+                            f.dh = rng.range(1, f.sh as u64) as u32;
+                        }
+                        f.cx = rng.below(101) as f64 / 100.0;
+                        f.cy = rng.below(101) as f64 / 100.0;
+                    }
+                    Some(f)
                 },
                 |f| json!({"src": [f.sw, f.sh], "dst": [f.dw, f.dh], "centering": [f64_show(f.cx), f64_show(f.cy)]}),
                 |f, stats, viols| {
@@ -202,6 +218,34 @@ pub fn run(ctx: &mut Ctx) {
                                     }
                                 }
                                 Err(e) => viols.push(Viol::new("fit_resize_error", format!("dynamic entry point, {}x{} -> {}x{} centering ({}, {}): {:?}", sw, sh, dw, dh, f.cx, f.cy, e)).sig(json!({"clause": "in_bounds"}))),
+                            }
+                        }
+                    }
+                    // where the fitted box really is, read off a Nearest resize of coordinate-tagged I32 pixels (independent of how
+                    // the library treats an explicit crop() of the same box): dst (x, y) must show the source pixel under its centre
+                    {
+                        use fr::pixels::I32;
+                        let tagged: Vec<I32> = (0..sw * sh).map(|i| I32::new(((i % sw) + (i / sw) * 65_536) as i32)).collect();
+                        let opts: ResizeOptions = ResizeOptions::new().resize_alg(Alg::Nearest.to_fr()).fit_into_destination(Some((f.cx, f.cy)));
+                        stats.count("fit_box_read_off_nearest", 1);
+                        if let Ok(out) = resize_vec::<I32>(&tagged, sw, sh, dw, dh, &opts, Ext::None) {
+                            'scan: for y in 0..dh {
+                                let fy = b.top + (y as f64 + 0.5) * b.height / dh as f64;
+                                for x in 0..dw {
+                                    let fx = b.left + (x as f64 + 0.5) * b.width / dw as f64;
+                                    let v = out[(y * dw + x) as usize].0;
+                                    let (gx, gy) = ((v & 0xffff) as f64, (v >> 16) as f64);
+                                    // either neighbour when the centre is within 1e-9 of a pixel boundary
+                                    let okx = (fx - 1e-9).floor().min(sw as f64 - 1.0) <= gx && gx <= (fx + 1e-9).floor().min(sw as f64 - 1.0);
+                                    let oky = (fy - 1e-9).floor().min(sh as f64 - 1.0) <= gy && gy <= (fy + 1e-9).floor().min(sh as f64 - 1.0);
+                                    if !okx || !oky {
+                                        viols.push(
+                                            Viol::new("fit_option_uses_another_box", format!("{}x{} -> {}x{} centering ({}, {}) Nearest: dst ({},{}) shows source pixel ({},{}), the centre of the fitted box {:?} lies at ({}, {})", sw, sh, dw, dh, f.cx, f.cy, x, y, gx, gy, b, fx, fy))
+                                                .sig(json!({"clause": "centering"})),
+                                        );
+                                        break 'scan;
+                                    }
+                                }
                             }
                         }
                     }
